@@ -330,9 +330,20 @@ def _initial_values(ctx: Ctx, helpers):
                     val = n.value
                 if A.dotted(t) == "self.state_id":
                     sid = n.value
+    def _is_start_time(e):
+        # the start time itself, or masked in a way that keeps its low 12 bits (the only ones the
+        # generator uses, and since /repo e79af0a it tells "given" from "absent" by `is not None`)
+        if A.dotted(e) == "self.state_id":
+            return True
+        if isinstance(e, ast.BinOp) and isinstance(e.op, ast.BitAnd):
+            for a_, b_ in ((e.left, e.right), (e.right, e.left)):
+                m_ = model.try_fold(b_, ninit.module, node_cls)
+                if A.dotted(a_) == "self.state_id" and isinstance(m_, int) and m_ & 0xfff == 0xfff:
+                    return True
+        return False
     ok = (isinstance(val, ast.Call) and A.call_name(val) == "SequenceGenerator"
           and len(val.args) + len(val.keywords) == 1
-          and A.dotted((val.args or [val.keywords[0].value])[0]) == "self.state_id"
+          and _is_start_time((val.args or [val.keywords[0].value])[0])
           and sid is not None and "time.time()" in ast.unparse(sid))
     if not ok:
         ctx.fail(cons, ninit.loc(), "Node.end_to_end_seq is not SequenceGenerator(<start time>): "
